@@ -372,8 +372,10 @@ func (ni *NodeInfo) IsTaskFitOnGpuGroup(resourceRequest *resource_info.ResourceR
 }
 
 func (ni *NodeInfo) EnoughIdleResourcesOnGpu(resources *resource_info.ResourceRequirements, gpuGroup string) bool {
-	if _, foundOnAllocated := ni.AllocatedSharedGPUsMemory[gpuGroup]; !foundOnAllocated {
-		// If a gpu group is not found in allocated, it's an indication that this group is pipelined
+	if allocatedMemory, foundOnAllocated := ni.AllocatedSharedGPUsMemory[gpuGroup]; !foundOnAllocated || allocatedMemory <= 0 {
+		// If a gpu group is not found in allocated, it's an indication that this group is pipelined.
+		// So is an entry without allocated memory: it is what remains of a task that was allocated to a new
+		// group and then converted to pipelined together with the rest of its gang.
 		return false
 	}
 	return ni.MemoryOfEveryGpuOnNode-ni.AllocatedSharedGPUsMemory[gpuGroup]-ni.GetResourceGpuMemory(resources) >= 0
